@@ -7,6 +7,31 @@ import traceback
 NPROC = int(os.environ.get("VERIF_PROCS", str(min(16, os.cpu_count() or 1))))
 
 _FN = None
+_ALL_CPUS = sorted(os.sched_getaffinity(0)) if hasattr(os, "sched_getaffinity") else [0]
+
+
+def pin_self(cpu=None):
+    """thread hand-offs inside one process are ~7x faster when all its threads share one core"""
+    try:
+        if cpu is None and len(os.sched_getaffinity(0)) == 1:
+            return          # already pinned (pmap worker)
+        os.sched_setaffinity(0, {_ALL_CPUS[-1] if cpu is None else cpu})
+    except (OSError, AttributeError):
+        pass
+
+
+def unpin_self():
+    try:
+        os.sched_setaffinity(0, set(_ALL_CPUS))
+    except (OSError, AttributeError):
+        pass
+
+
+def _init(q):
+    try:
+        os.sched_setaffinity(0, {q.get()})
+    except (OSError, AttributeError):
+        pass
 
 
 def _call(i_arg):
@@ -28,7 +53,11 @@ def pmap(fn, args, procs=None, chunksize=1):
     _FN = fn
     ctx = multiprocessing.get_context("fork")
     out = [None] * len(args)
-    with ctx.Pool(min(procs, len(args))) as pool:
+    n = min(procs, len(args))
+    q = ctx.Queue()
+    for i in range(n):
+        q.put(_ALL_CPUS[i % len(_ALL_CPUS)])
+    with ctx.Pool(n, initializer=_init, initargs=(q,)) as pool:
         for i, res, err in pool.imap_unordered(_call, list(enumerate(args)), chunksize):
             if err is not None:
                 pool.terminate()
